@@ -13,7 +13,7 @@ REQUIRED = ['pscCheck_sound_complete', 'unsupported_coalition_trivial', 'droop_a
             'droop_exceeds', 'hare_exceeds', 'psc_droop', 'psc_check_passes', 'result_shape', 'droop_positive', 'hare_positive', 'full_list_or_refusal',
             'no_infinite_loop', 'shared_rank_coalition_seated']
 UNPROVED = []
-NAME_MODES = ['str', 'int0', 'empty0']
+NAME_MODES = ['str', 'int0', 'empty0', 'person']
 REQUIRED_COUNTERS = ['coalition_k_ge_1_and_larger', 'refusal', 'hare', 'shared_ranks', 'majority_winner', 'psc_false',
                      'multi_seat', 'hare_quota', 'impl_outcome_checked', 'fraction_weights']
 RULE = ('ranked profiles over 1-6 candidates, 1-10 ballot types, with and without shared ranks, truncated ballots, weights from a '
